@@ -17,6 +17,7 @@ Failing generated documents are shrunk structurally (mdgen.shrink) inside the ge
 `input` is a (locally) minimal document and the key is stable:  '<contract>|<repr(min input)>|nw=<b>'.
 Spec examples are reported as  '<contract>|spec:<example number>|nw=<b>'.
 """
+import os
 import re
 
 from runtime.common import use_repo, spec_examples, pool_map, Timer
@@ -28,9 +29,9 @@ from mistletoe import Document, HtmlRenderer                      # noqa: E402
 from mistletoe.markdown_renderer import MarkdownRenderer          # noqa: E402
 
 CHUNK = 40              # cases per work item (fixed: independent of the number of workers)
-SHRINK_BUDGET = 500     # renderer evaluations per shrunk failure
-SHRINK_PER_CHUNK = 12   # failures shrunk per work item; the rest are reported unshrunk
-MAX_FAILURES = 400
+SHRINK_BUDGET = 250     # renderer evaluations per shrunk failure
+SHRINK_PER_CHUNK = 10   # failures shrunk per work item; the rest are reported unshrunk
+MAX_FAILURES = int(os.environ.get('VERIF_MAXFAIL', '400'))
 
 # Attribution of the spec examples that fail on the pinned tree (documentation only: nothing is
 # filtered by this table; an example missing from it is reported with a heuristic class).
@@ -88,9 +89,18 @@ def check(x, nw, normal):
 _FENCE = re.compile(r'^[> ]*(?:(?:[-+*]|\d{1,9}[.)]) +)*[> ]*(`{3,}|~{3,})[^`\n]*$')
 
 
-def classify(x, contract, nw, fails_without_nw):
+def _ncells(line):
+    return max(len([c for c in re.split(r'(?<!\\)\|', v.strip()) if c])
+               for v in (line, re.sub(r'^[> ]*', '', line)))
+
+
+def classify(x, contract, nw, fails_without_nw, observed=None):
     """Heuristic root-cause slug from the (minimal) failing text."""
     lines = x.split('\n')
+    if contract == 'c09c' and isinstance(observed, str) and \
+            [l for l in observed.split('\n') if l.strip()] == [l for l in lines if l.strip()] and \
+            re.search(r'^[> ]*(?:[-+*]|\d{1,9}[.)]) ', x, re.M) and re.search(r'\n[> ]*\n[> ]*\n', x):
+        return 'extra-blank-lines-after-list-item-collapsed'
     if re.search(r'&(#\d+|#[xX][0-9a-fA-F]+|[A-Za-z][A-Za-z0-9]*);', x):
         return 'character-reference-decoded'
     if re.search(r'\]\([^)\n]*\\[^)\n]*\)', x) or re.search(r'^ {0,3}\[[^\]]+\]:.*\\', x, re.M):
@@ -109,13 +119,27 @@ def classify(x, contract, nw, fails_without_nw):
                 return 'empty-fenced-code-gains-line'
             break
     for i, l in enumerate(lines[:-1]):
-        body = re.sub(r'^(?:>[ ]?)+', '', l)
+        body = re.sub(r'^(?: {0,3}>[ ]?)+', '', l)
         if body != '' and body.strip() == '':
             return 'whitespace-only-line-blanked'
     for i, l in enumerate(lines[:-1]):
         if re.match(r'^[> ]*(?:[-+*]|\d{1,9}[.)]) *$', l) and i + 1 < len(lines) - 1 and \
                 re.sub(r'^[> ]*', '', lines[i + 1]) == '':
             return 'empty-list-item-swallows-blank-lines'
+    for i, l in enumerate(lines[:-2]):
+        if '|' in l and re.fullmatch(r'[> ]*[-:| ]*-[-:| ]*', lines[i + 1]) and '|' in lines[i + 1]:
+            j = i + 2
+            while j < len(lines) and '|' in lines[j]:
+                if _ncells(lines[j]) > max(_ncells(l), _ncells(lines[i + 1])):
+                    return 'table-row-wider-than-header-widens-table'
+                j += 1
+    if contract == 'c09b' and re.search(r'^[> ]*#{1,6} +#+ *$', x, re.M):
+        return 'empty-atx-heading-closing-sequence-lost-on-second-pass'
+    if re.search(r'^[> ]*(?:[-+*]|\d{1,9}[.)]) *\n[> ]* +[^ \n]', x, re.M):
+        return 'blank-first-line-item-joined-to-marker-line'
+    for i, l in enumerate(lines[:-1]):
+        if i and l.strip() and not l.lstrip().startswith('>') and lines[i - 1].lstrip().startswith('>'):
+            return 'unquoted-line-after-quote-lazy-heuristic-flips'
     return 'unclassified'
 
 
@@ -175,7 +199,7 @@ def work(chunk):
                     without = contract in per_nw.get(False, ()) if nw else True
                     if nw and mx != x:
                         without = any(b[0] == contract for b in check(mx, False, normal))
-                    cls = classify(mx, contract, nw, without)
+                    cls = classify(mx, contract, nw, without, observed)
                 res['failures'].append({
                     'key': key, 'contract': contract, 'class': cls,
                     'input': {'markdown': mx, 'normalize_whitespace': nw, 'source': ident},
@@ -192,7 +216,7 @@ def work(chunk):
 
 def run(tier, seed, workers):
     t = Timer()
-    n_free, n_normal = (9000, 4000) if tier == 'quick' else (400000, 150000)
+    n_free, n_normal = (6000, 3000) if tier == 'quick' else (400000, 150000)
     base = seed * 10_000_000
     cases = [('spec', e['example'], e['markdown']) for e in spec_examples()]
     cases += [('gen', 'free', base + i) for i in range(n_free)]
